@@ -756,6 +756,255 @@ def unvalidated_scalars(prog, res, ents):
     res.extra["image_scalar_uses"] = n
 
 
+
+# ------------------------------------------------------------------------------------------------ C14.P slice-length chains
+def strip(e):
+    while isinstance(e, tuple) and e and e[0] == "cast":
+        e = e[1]
+    return e
+
+
+def _slice_params(f):
+    return [i for i in range(1, f.argc + 1) if f.local_ty(i).replace("&mut ", "&").startswith("&[") and f.local_ty(i).endswith("]")]
+
+
+def slice_length_chains(prog, scope):
+    from .common import Sym
+    """Constant indices into a slice parameter (`bytes[11]` in the generated bit unpackers) are bounds checks the interval domain
+    cannot decide: the slice's length is a run-time quantity of the caller.  They are decided here bottom-up, as length
+    *requirements*: a function that indexes parameter p at constants needs len(p) >= max + 1; a caller that hands its own parameter
+    on inherits the requirement under the exact path condition of the call (the dispatch `match bits { N => unpack_bits_N(..) }`
+    turns 63 constants into the table N -> need), unless its own checks refute every shorter length (`assert_eq!(values.len(), 8)`);
+    where the slice is finally made (`vec![0u8; entry_bits]`, `&mut entries[i..i + 8]`) its length expression is evaluated for every
+    value of the byte-sized leaves and samples of the others and compared with the requirement selected by the same values.
+    returns {leaf fn id: (verdict, why)} for every function all of whose slice-parameter bounds checks are constant-index ones;
+    verdict True = every chain to an origin satisfies the need, False = some origin provides a shorter slice (with the witness),
+    None = a chain could not be followed / evaluated."""
+    RETX = {}
+    fns = [prog.fns[x] for x in sorted(scope) if x in prog.fns and not prog.fns[x].promoted]
+    direct = {}      # fn id -> {param: need}
+    covered = {}
+    syms = {}
+
+    def S(f):
+        if f.id not in syms:
+            syms[f.id] = Sym(prog, f)
+        return syms[f.id]
+    for f in fns:
+        sp = _slice_params(f)
+        if not sp:
+            continue
+        need = {}
+        clean = True
+        n_b = 0
+        for b in f.blocks:
+            t = b.term
+            if b.cleanup or t[0] != "assert" or t[3] != "BoundsCheck":
+                continue
+            n_b += 1
+            try:
+                ln, ix = [strip(S(f).at(b.idx, "t").operand(x)) for x in t[4][:2]]
+            except Exception:
+                clean = False
+                continue
+            if ln[0] == "un" and ln[1] == "PtrMetadata" and ln[2][0] == "param" and ln[2][1] in sp and ix[0] == "const" and isinstance(ix[1], int):
+                need[ln[2][1]] = max(need.get(ln[2][1], 0), ix[1] + 1)
+            else:
+                clean = False
+        if need and clean:
+            direct[f.id] = need
+            covered[f.id] = n_b
+    if not direct:
+        return {}, {}
+    callers = {}
+    for f in fns:
+        for b, site in f.calls():
+            cal = site.get("callee")
+            if cal:
+                callers.setdefault(cal, []).append((f, b, site))
+
+    SAMPLES = (0, 1, 8, 9, 64, 1000)
+    origin_rows = {}
+
+    def envs_for(leaf_keys, byte_leaves):
+        """every value of the byte-sized leaves x samples of the rest (bounded)"""
+        import itertools
+        byte_leaves = [k for k in leaf_keys if k in byte_leaves]
+        rest = [k for k in leaf_keys if k not in byte_leaves]
+        doms = [range(256)] * len(byte_leaves) + [SAMPLES] * len(rest)
+        total = 1
+        for d in doms:
+            total *= len(d)
+        if total > 40000:
+            return None
+        return [dict(zip(byte_leaves + rest, vs)) for vs in itertools.product(*doms)]
+
+    def follow(fid, reqs, depth):
+        """reqs: list of (pred over fid's own leaves, need, param).  returns (verdict, why)"""
+        f = prog.fns[fid]
+        if depth > 4:
+            return None, "chain deeper than 4 calls"
+        scal = [i for i in range(1, f.argc + 1) if f.local_ty(i) in ir.INT_RANGES]
+        # local refutation: do f's own checks exclude every shorter length?
+        open_reqs = []
+        feas = {}
+        for (pred, need, p) in reqs:
+            pname = f.local_name(p) or "arg%d" % p
+            refuted = True
+            for L in sorted({0, need - 1}):
+                if L < 0:
+                    continue
+                r = pred({"@prog": prog, "@retexpr": RETX, "PtrMetadata(%s)" % pname: L})
+                if r is not False:
+                    # may depend on scalar parameters: try them
+                    names = [f.local_name(i) or "arg%d" % i for i in scal]
+                    es = envs_for(names, set(n for n, i in zip(names, scal) if f.local_ty(i) in ("u8", "i8")))
+                    if es is None:
+                        refuted = False
+                        break
+                    fkey = (id(pred),)
+                    if fkey not in feas:
+                        # scalar values under which the requirement applies at all (lengths left open)
+                        feas[fkey] = [e for e in es if pred(dict(e, **{"@prog": prog, "@retexpr": RETX})) is not False]
+                    for e in feas[fkey]:
+                        e2 = dict(e)
+                        e2["@prog"] = prog
+                        e2["@retexpr"] = RETX
+                        e2["PtrMetadata(%s)" % pname] = L
+                        if pred(e2) is not False:
+                            refuted = False
+                            break
+                    if not refuted:
+                        break
+            if not refuted:
+                open_reqs.append((pred, need, p))
+        if not open_reqs:
+            return True, "own length checks"
+        sites = callers.get(fid, [])
+        if not sites:
+            return None, "%s has open length requirements and no in-crate caller" % fid
+        verdict = True
+        why = "callers"
+        for (g, b, site) in sites:
+            sg = S(g)
+            args = [strip(sg.at(b, "t").operand(a)) for a in site["args"]]
+            gp0 = C.path_pred(sg, b)
+            gmemo = {}
+
+            def gp(env, gp0=gp0, gmemo=gmemo):
+                k = tuple(sorted((a_, b_) for a_, b_ in env.items() if not a_.startswith("@") and not isinstance(b_, (list, dict))))
+                if k not in gmemo:
+                    gmemo[k] = gp0(env)
+                return gmemo[k]
+            gsp = _slice_params(g)
+            passed = {}
+            for (pred, need, p) in open_reqs:
+                a = args[p - 1]
+                while a[0] in ("ref", "deref") or (a[0] == "call" and a[1].rsplit("::", 1)[-1] in ("deref", "deref_mut", "as_slice", "as_mut_slice", "as_ref", "borrow")):
+                    a = a[1] if a[0] in ("ref", "deref") and len(a) == 2 else (a[2][0] if a[0] == "call" else a[-1])
+                if a[0] == "param" and a[1] in gsp:
+                    passed.setdefault(a[1], []).append((pred, need, p))
+            if passed:
+                # the caller hands its own parameter on: requirement inherited under the call's path condition and the callee's condition
+                nreq = []
+                for gparam, lst in passed.items():
+                    for (pred, need, p) in lst:
+                        def mk(pred=pred, p=p, gparam=gparam):
+                            def q(env):
+                                r1 = gp(env)
+                                if r1 is False:
+                                    return False
+                                cenv = {"@prog": prog, "@retexpr": RETX}
+                                try:
+                                    for i, a_ in enumerate(args):
+                                        nm = f.local_name(i + 1) or "arg%d" % (i + 1)
+                                        if f.local_ty(i + 1) in ir.INT_RANGES:
+                                            cenv[nm] = formula.evaluate(a_, env)
+                                    gname = g.local_name(gparam) or "arg%d" % gparam
+                                    if "PtrMetadata(%s)" % gname in env:
+                                        cenv["PtrMetadata(%s)" % (f.local_name(p) or "arg%d" % p)] = env["PtrMetadata(%s)" % gname]
+                                except (formula.Uneval, TypeError):
+                                    return None
+                                r2 = pred(cenv)
+                                if r2 is False:
+                                    return False
+                                return True if (r1 is True and r2 is True) else None
+                            return q
+                        nreq.append((mk(), need, gparam))
+                v, w = follow(g.id, nreq, depth + 1)
+                if v is False:
+                    return False, w
+                if v is None:
+                    verdict, why = None, w
+                if len(passed) == len(set(p for _, _, p in open_reqs)):
+                    continue
+            # the slice is made here: evaluate its length against the requirement chosen by the same values
+            skey = (g.id, b)
+            if skey not in origin_rows:
+                keys = set()
+                for a in args:
+                    for x in sym.walk(a):
+                        if x[0] in ("var", "param") or (x[0] == "call" and "@" in x[1] and not x[2]):
+                            keys.add(C.show(x))
+                byte_leaves = set(k for k in keys if k.startswith(("read_u8@", "read_i8@")))
+                es = envs_for(sorted(keys), byte_leaves)
+                rows = None
+                if es is not None:
+                    rows = []
+                    sl = _slice_params(f)
+                    for e in es:
+                        e["@prog"] = prog
+                        e["@retexpr"] = RETX
+                        cenv = {"@prog": prog, "@retexpr": RETX}
+                        lens = {}
+                        try:
+                            for i, a_ in enumerate(args):
+                                if f.local_ty(i + 1) in ir.INT_RANGES:
+                                    cenv[f.local_name(i + 1) or "arg%d" % (i + 1)] = formula.evaluate(a_, e)
+                            for p_ in sl:
+                                try:
+                                    lens[p_] = formula.seq_len(args[p_ - 1], e)
+                                except (formula.Uneval, TypeError, ZeroDivisionError) as ex:
+                                    lens[p_] = "length of argument %d at %s not evaluable (%s)" % (p_, g.id, str(ex)[:60])
+                        except (formula.Uneval, TypeError, ZeroDivisionError) as ex:
+                            rows = "scalar argument at %s not evaluable (%s)" % (g.id, str(ex)[:60])
+                            break
+                        rows.append((e, cenv, lens))
+                origin_rows[skey] = rows
+            rows = origin_rows[skey]
+            if rows is None or isinstance(rows, str):
+                verdict, why = None, rows or ("too many leaves at %s" % g.id)
+                continue
+            for (pred, need, p) in open_reqs:
+                if any(p == pp for lst in passed.values() for (_, _, pp) in lst):
+                    continue
+                for (e, cenv, lens) in rows:
+                    L = lens.get(p)
+                    if not isinstance(L, int) or isinstance(L, bool):
+                        verdict, why = None, L if isinstance(L, str) else "length of argument %d at %s not an integer" % (p, g.id)
+                        break
+                    if L >= need:
+                        continue
+                    cenv2 = dict(cenv)
+                    cenv2["PtrMetadata(%s)" % (f.local_name(p) or "arg%d" % p)] = L
+                    r = pred(cenv2)
+                    if r is False or gp(e) is False:       # the values do not select this requirement / do not reach the call
+                        continue
+                    if r is True:
+                        return False, "%s passes a slice of length %d as `%s` of %s where %d elements are indexed (with %s)" % (
+                            g.id, L, f.local_name(p), fid, need, {k: v for k, v in e.items() if not k.startswith("@")})
+                    if verdict:
+                        verdict, why = None, "requirement condition not evaluable at %s" % g.id
+        return verdict, why
+
+    out = {}
+    for fid, need in direct.items():
+        f = prog.fns[fid]
+        reqs = [((lambda env: True), n, p) for p, n in sorted(need.items())]
+        out[fid] = follow(fid, reqs, 0)
+    return out, covered
+
+
 def run(prog, ctx):
     res = Result("C14")
     ents, missing = entries(prog)
@@ -775,6 +1024,15 @@ def run(prog, ctx):
     aux_slot_agreement(prog, res)
     raw_buffer_uses(prog, res, ents)
     unvalidated_scalars(prog, res, ents)
+    chains, chain_cover = slice_length_chains(prog, scope)
+    n_chain = [0, 0, 0]
+    for fid, (v, why) in sorted(chains.items()):
+        if v is False:
+            res.violate("C14.P", "C14.P|%s" % fid, "index out of bounds reachable from an image: %s" % why, fid)
+    res.extra["slice_length_chains"] = {"functions": len(chains), "proved": sum(1 for v, _ in chains.values() if v is True),
+                                        "refuted": sum(1 for v, _ in chains.values() if v is False),
+                                        "undecided": sorted(set(w for v, w in chains.values() if v is None))[:6]}
+    res.rule("C14.P", len(chains), 60, "functions indexing a slice parameter at constants only (generated bit unpackers), decided through the lengths their callers provide")
     nan_obl = res.obligations
     for o in an.obligations:
         b = srcs(o.taint)
@@ -791,6 +1049,17 @@ def run(prog, ctx):
                 res.sample({"site": o.fn, "kind": o.kind, "detail": o.detail, "operands": o.operands, "verdict": "discharged",
                             "sources": [short_src(t) for t in b][:4]})
             continue
+        if o.kind == "bounds" and o.fn in chains and o.status != "unsafe":
+            # a constant index into a slice parameter: decided by the length requirement chain (C14.P)
+            v = chains[o.fn][0]
+            if v is True:
+                res.discharged += 1
+                kinds[o.kind][1] += 1
+                n_chain[0] += 1
+                continue
+            if v is False:
+                kinds[o.kind][2] += 1      # reported once per function above
+                continue
         if o.status == "unsafe" and not widened:
             detail = o.detail
             if o.kind == "alloc":
